@@ -20,7 +20,7 @@ cd "$wt"
 export CARGO_TARGET_DIR="$wt/target" CARGO_NET_OFFLINE=true
 # (c) demo without patch
 inject
-cargo test --offline -j 6 $FEAT --lib seeded_ > "$wt/c.log" 2>&1; c=$?
+cargo test --offline -j 6 $FEAT --lib seeded > "$wt/c.log" 2>&1; c=$?
 git checkout -q -- .
 # (a) suite with patch
 git apply "$d/patch.diff" || { echo "patch does not apply"; exit 2; }
@@ -28,7 +28,7 @@ cargo test --offline -j 6 --workspace > "$wt/a.log" 2>&1; a=$?
 apass=$(grep -h "test result" "$wt/a.log" | awk '{s+=$4} END{print s}')
 # (b) demo with patch
 inject
-cargo test --offline -j 6 $FEAT --lib seeded_ > "$wt/b.log" 2>&1; b=$?
+cargo test --offline -j 6 $FEAT --lib seeded > "$wt/b.log" 2>&1; b=$?
 bfail=$(grep -h "test result" "$wt/b.log" | head -1)
 cpass=$(grep -h "test result" "$wt/c.log" | head -1)
 ok=false; [ $a -eq 0 ] && [ "$apass" = "79" ] && [ $b -ne 0 ] && [ $c -eq 0 ] && ok=true
@@ -40,7 +40,7 @@ mp=os.path.join(d,'meta.json')
 if os.path.exists(mp): m=json.load(open(mp))
 m['confirmed']= ok=='true'
 m['confirmation']={'suite_with_patch_passed':apass,'demo_with_patch':bfail,'demo_without_patch':cpass,
-  'ran':'tools/confirm_seeded.sh: scratch worktree of /repo HEAD; cargo test --offline --workspace with patch; cargo test --lib seeded_ with and without patch'}
+  'ran':'tools/confirm_seeded.sh: scratch worktree of /repo HEAD; cargo test --offline --workspace with patch; cargo test --lib seeded with and without patch'}
 json.dump(m,open(mp,'w'),indent=1)
 print(d, 'CONFIRMED' if m['confirmed'] else 'NOT-CONFIRMED', apass, '|', bfail, '|', cpass)
 PY
